@@ -264,6 +264,11 @@ def merge_sv(cond, a, b):
         return a
     if a.kind != b.kind:
         return None
+    if a.kind == 'list' and ('arrs' in a.f or 'arrs' in b.f):
+        # th_lists representation (length + content arrays): the content must be merged too, not taken from the first operand
+        if a.f.get('arrs') is None or b.f.get('arrs') is None or a.f.get('ety') != b.f.get('ety') or len(a.f['arrs']) != len(b.f['arrs']):
+            return None
+        return SV('list', If(cond, a.t, b.t), ety=a.f['ety'], arrs=[If(cond, x, y) for x, y in zip(a.f['arrs'], b.f['arrs'])])
     if a.kind in ('int', 'bool', 'val', 'list', 'dict', 'set'):
         if a.t.sort() != b.t.sort():
             return None
